@@ -290,10 +290,11 @@ Definition parse_general (st : GeneralState) (line : str) : GeneralState * res :
 
 (* ---------- [Editor] ---------- *)
 
-(* value.split(',').map(str::parse).filter_map(Result::ok).collect():
-   plain i32::from_str on every piece: no trim, no MAX_PARSE_VALUE limit *)
+(* value.split(',').map(StrExt::parse_num).filter_map(Result::ok).collect():
+   every piece goes through ParseNumber for i32 (trimmed, within +-MAX_PARSE_VALUE);
+   a piece that fails is skipped *)
 Definition parse_bookmarks (value : str) : list Z :=
-  filter_map parse_i32_raw (split_on comma value).
+  filter_map pn_i32 (split_on comma value).
 
 Definition parse_editor (st : EditorState) (line : str) : EditorState * res :=
   match kv_parse editor_key_from_str (trim_comment line) with
